@@ -12,6 +12,7 @@ package registry
 //@ ghost func Deliver(ctx *api.Context) bool { return !api.IsCheck(ctx) && !api.IsSim(ctx) }
 
 //@ func Application.registerEntity
+//@   assume-pre api\.Context\.TxSigner$
 //@   props C17 C08
 //@   requires ctx != nil && state != nil
 //@   ensures err == nil && old(Deliver(ctx)) && !old(api.IsInit(ctx)) ==> sigEnt != nil && sigEnt.Signature.PublicKey == old(api.Signer(ctx))
@@ -20,6 +21,7 @@ package registry
 //@   ensures err != nil && !unavail(err) ==> noWrites()
 
 //@ func Application.deregisterEntity
+//@   assume-pre api\.Context\.TxSigner$
 //@   props C17 C08
 //@   requires ctx != nil && state != nil
 //@   ensures err == nil && old(Deliver(ctx)) ==> !kvHas(registryState.EntityKey(old(api.Signer(ctx))))
@@ -33,7 +35,8 @@ package registry
 //@ ghost func RtClaim(rt *registry.Runtime) staking.StakeClaim { return ufr[staking.StakeClaim]("claimForRuntime", rt.ID) }
 
 //@ func Application.registerRuntime
-//@   props C17 C08
+//@   props C17 C08 C10
+//@   note (C10) registerRuntime is also reached from a runtime message (UpdateRuntime, dispatched while a round is finalized in EndBlock), where the context is not a transaction context: it does NOT assume the precondition of Context.TxSigner (which panics outside a transaction), so a call of it here is a failed obligation (seed C10_i authorized entity-governed runtimes by the transaction signer: the runtime message panicked EndBlock)
 //@   requires app != nil && ctx != nil && state != nil && rt != nil
 //@   precall api\.MessageDispatcher\)\.Publish$ :: api.GPublishes != old(api.GPublishes) || (defined(stakeParams) && stakeParams != nil && (registry.RtHasAddr(rt) && !stakeParams.DebugBypassStake ==> stakingState.GClaim[registry.RtAddr(rt)][RtClaim(rt)] && (existingRt != nil && registry.RtHasAddr(existingRt) && registry.RtAddr(existingRt) != registry.RtAddr(rt) ==> !stakingState.GClaim[registry.RtAddr(existingRt)][RtClaim(rt)])))
 //@   precall registry/state\.MutableState\)\.(SetRuntime|SetRuntimeOwner|RemoveRuntimeOwner)$ :: api.GPublishes > old(api.GPublishes) && err == nil
@@ -44,6 +47,7 @@ package registry
 //@   note when the registration is announced to the other applications (first message published), the runtime's stake claim is recorded on the account that now owns the runtime and, if the owning account changed, no longer on the previous one: the recorded claims are exactly those implied by the registered runtimes
 
 //@ func Application.registerNode
+//@   assume-pre api\.Context\.TxSigner$
 //@   props C08 C17
 //@   requires app != nil && ctx != nil && state != nil
 //@   precall staking/state\.NewStakeAccumulatorCache$ :: argIs(0, ctx) && api.InTx(ctx)
@@ -51,6 +55,7 @@ package registry
 //@   note (C08) the stake accumulator cache binds to the state tree of the context it is created with, and its Commit writes the entity's account (with the node's replaced stake claim) to THAT tree: it is created over the handler's transaction context, so the claim written for a registration that is rejected afterwards (node update not allowed) is rolled back with it (seed C08_i created the cache before the transaction was opened: a rejected update left the entity's claim replaced)
 
 //@ func Application.unfreezeNode
+//@   assume-pre api\.Context\.TxSigner$
 //@   props C17
 //@   requires app != nil && ctx != nil && state != nil && unfreeze != nil
 //@   precall state\.MutableState\)\.SetNodeStatus$ :: api.Signer(ctx) == node.EntityID && argIs(1, node.ID) && argIs(2, status)
